@@ -256,7 +256,7 @@ type c16Point struct {
 
 func c16Run(t *testing.T, mode string, r *kit.Result, seed int64) {
 	shard, shards := kit.Shard()
-	scs := c16Scenarios(kit.N(3, 400))
+	scs := c16Scenarios(kit.N(3, 250))
 	only := kit.OnlyCase()
 	global := 0
 	for si, sc := range scs {
